@@ -11,7 +11,7 @@ import numpy as np
 import irispie as ir
 from ..common import MachineryError
 from .C09 import _plain
-from .kalman_common import scenarios, run_filter, val, nanv, TK
+from .kalman_common import scenarios, run_filter, val, nanv, TK, has_extra
 from .lre_common import fr
 
 
@@ -22,7 +22,8 @@ def close(g, e, tol=1e-8):
 def check(chk, sc, out, deviation):
     payload = {"kind": "kalman", "sc": _plain(sc), "src": list(out["src"]), "deviation": deviation}
     tag = "kalman:%s%s" % (sc["id"], ":dev" if deviation else "")
-    desc = "model %s data %s shock variances %s measurement variance %s deviation=%s" % (sc["id"], _plain(sc["data"]), _plain(sc["sd"]), _plain(sc["sdw"]), deviation)
+    desc = "model %s data %s shock variances %s%s measurement variance %s deviation=%s" % (sc["id"], _plain(sc["data"]), _plain(sc["sd"]),
+        (" plus %s in periods 1..%d supplied as std data (stds_from_data=True)" % (_plain(sc["dsd"]), TK)) if has_extra(sc) else "", _plain(sc["sdw"]), deviation)
     try:
         m, res, info, steady = run_filter(sc, out, deviation=deviation)
     except Exception as ex:
@@ -108,6 +109,15 @@ def check(chk, sc, out, deviation):
             if not close(g2, nll_resc):
                 chk.mismatch(tag + ":rescaled-likelihood", desc + ": with rescale_variance=True neg_log_likelihood is %r, the negative log-density at the maximum-likelihood "
                              "variance scale is %r (N = %d observations in %d periods)" % (g2, nll_resc, total_n, TK), payload)
+                return
+            # per-period contributions at the rescaled variances: 1/2 [ n_t log 2pi + log det F_t + n_t log s2 + quad_t / s2 ]; they sum to the total
+            cs2 = info2["neg_log_likelihood_contributions"]
+            got_c2 = [float(cs2.get_data(ir.qq(2020, 1) + t)[0, 0]) for t in range(TK)]
+            exp_c2 = [0.5 * (out["pe"][t]["n"] * (math.log(2 * math.pi) + math.log(scale_exp)) + math.log(float(fr(out["pe"][t]["det"]))) + float(fr(out["pe"][t]["quad"])) / scale_exp)
+                      if out["pe"][t]["n"] else 0.0 for t in range(TK)]
+            if not close(sum(got_c2), g2) or any(not close(a_, b_) for a_, b_ in zip(got_c2, exp_c2)):
+                chk.mismatch(tag + ":rescaled-contributions", desc + ": with rescale_variance=True the likelihood contributions are %r and sum to %r, the total is %r (contributions at the "
+                             "rescaled variances: %r)" % (got_c2, sum(got_c2), g2, exp_c2), payload)
                 return
             # means are unchanged by the rescaling, variances are multiplied by the scale
             for t in range(1, TK + 1):
@@ -248,7 +258,10 @@ def run(chk):
         check(chk, sc, out, deviation=False)
         check(chk, sc, out, deviation=True)
         n += 2
-        groups.setdefault((sc["id"], repr(_plain(sc["data"]))), []).append((sc, out))
+        if not has_extra(sc):
+            groups.setdefault((sc["id"], repr(_plain(sc["data"]))), []).append((sc, out))
+        else:
+            chk.notes["runs_with_time_varying_stds"] = chk.notes.get("runs_with_time_varying_stds", 0) + 2
     npairs = 0
     for key, lst in sorted(groups.items()):
         if len(lst) >= 2 and npairs < (200 if chk.tier == "thorough" else 24):
@@ -262,10 +275,12 @@ def run(chk):
     sc, out = scen[len(scen) // 2]
     chk.sample({"scenario": _plain(sc), "spec_smoothed_means_period2": _plain(out["smooth"][1]["mean"]),
                 "spec_prediction_error_cov": _plain([pe["F"] for pe in out["pe"]])})
+    if not chk.notes.get("runs_with_time_varying_stds"):
+        raise MachineryError("KalmanMC: no scenario with time-varying standard deviations")
     chk.replayed += n
     chk.exhaustive = True
     chk.rule = ("models L1, L9 (lagged state in the measurement equation), LK (two observables, two measurement shocks), LK2 (two states) x 3-4 data sets "
-                "with missing-value masks incl. periods without observations x 2 shock variances x 2 measurement variances, 3 periods, level and "
+                "with missing-value masks incl. periods without observations x 2 shock variances (one of them also with an extra variance in period 2 supplied as std data) x 2 measurement variances, 3 periods, level and "
                 "deviation mode, rescale_variance; a case is one filter run")
     chk.assumptions = ["stationary models are started from their unconditional distribution and decided by exact moments; for unit-root models (diffuse / unknown "
                        "initial condition) only the recursion clauses (prediction step, update without observation, last period, predicted measurement) are decided",
